@@ -104,36 +104,56 @@ def _outside(results):
 
 
 def _canaries(rep, shard):
-    """corrupt one recorded OUTPUT so that it certainly is a violation; T_C07 must reject each"""
-    def final_value(evs):
-        i = first_with(evs, lambda e: e["ev"] == "end" and e["panic"] == "" and len(e["vals"]) > 0)
-        if i is not None:
-            evs[i]["vals"][0] = 2 if evs[i]["vals"][0] != 2 else 1      # every lattice has >= 3 elements
-        return i
-
-    def stabilized_flag(evs):
-        i = first_with(evs, lambda e: e["ev"] == "end" and e["panic"] == "")
-        if i is not None:
-            evs[i]["stabilized"] = not evs[i]["stabilized"]
-        return i
-
-    def first_input(evs):
-        # the first call-back of a run: the node's value when popped = its current value = the logged input
-        for i in range(5, len(evs)):
-            if evs[i]["ev"] == "edge" and evs[i - 1]["ev"] == "reset":
-                evs[i]["in"] = 2 if evs[i]["in"] != 2 else 1
-                return i
-        return None
-    for m in (final_value, stabilized_flag, first_input):
-        core.canary(rep, TRACE_SPEC, shard, m, n=80, stateful=True)
+    """Binding demonstration: in three different recorded runs of an accepted shard corrupt one OUTPUT
+    each so that it certainly is a violation (a final node value; the stabilized flag; the input value
+    of the first call-back of a run, where the node's value when popped = its current value); T_C07
+    must reject exactly these three events.  One TLC run for all three."""
+    lines = core.read_lines(shard)[:600]
+    evs = [json.loads(x) for x in lines]
+    starts = [i for i, e in enumerate(evs) if e["ev"] == "reset"]
+    evs = evs[:starts[-1]]                      # whole runs only
+    runs = [(a, b) for a, b in zip(starts, starts[1:])]
+    want, kinds = [], ["final_value", "stabilized_flag", "first_input"]
+    for a, b in runs[1:]:
+        if not kinds:
+            break
+        end = evs[b - 1]
+        if end["ev"] != "end" or end["panic"] != "":
+            continue
+        k = kinds[0]
+        if k == "final_value":
+            end["vals"][0] = 2 if end["vals"][0] != 2 else 1      # every lattice has >= 3 elements
+            want.append(b)                                         # 1-based index of the end event
+        elif k == "stabilized_flag":
+            end["stabilized"] = not end["stabilized"]
+            want.append(b)
+        else:
+            if evs[a + 1]["ev"] != "edge":
+                continue
+            evs[a + 1]["in"] = 2 if evs[a + 1]["in"] != 2 else 1
+            want.append(a + 2)
+        kinds.pop(0)
+    if kinds:
+        raise ToolError("canary: no suitable runs in the first events of %s" % shard)
+    path = os.path.join(core.BUILD, "traces", "canary_C07.ndjson")
+    with open(path, "w") as f:
+        for e in evs:
+            f.write(json.dumps(e) + "\n")
+    r = core.tlc(TRACE_SPEC, cfg="T_C07.cfg", trace=path, workers=1, timeout=900)
+    if r.error:
+        raise ToolError("canary: TLC error:\n" + r.error)
+    if sorted(r.bad) != sorted(want):
+        raise ToolError("canary: corrupted events %s, but T_C07 rejected %s - the trace specification is vacuous or over-strict" % (want, r.bad))
+    rep.notes.append("canary: a corrupted final value, a flipped stabilized flag and a corrupted update_edge input (events %s of an "
+                     "accepted shard) were rejected by T_C07.tla, and nothing else was" % want)
 
 
 def trace_part(rep, seed, tier, dump):
     """(T) both directions: random problems, and the problems TLC exported, on the real solver."""
-    meta = core.gen("C07", seed, tier, shards=8)
+    meta = core.gen("C07", seed, tier, shards=6 if tier == "quick" else 8)
     os.environ["C07_CONFIGS"] = dump
     os.environ["C07_MC_SAMPLE"] = "1500" if tier == "quick" else "15000"
-    meta_mc = core.gen("C07", seed, tier, shards=8, sub="mc")
+    meta_mc = core.gen("C07", seed, tier, shards=2 if tier == "quick" else 8, sub="mc")
     results = core.validate_traces(rep, TRACE_SPEC, meta["files"] + meta_mc["files"], parallel=8, timeout=3000)
     _outside(results)
     _canaries(rep, meta["files"][0])
